@@ -249,6 +249,8 @@ Section Hist.
       destruct o1; try (apply unbound_rel; auto).
       destruct (nth_error ms idx); try (apply unbound_rel; auto).
       destruct (motif_part _ _ _ _ _ m which); [apply store_same | apply unbound_rel]; auto.
+    - slot H self a1 q1 q1' Ht1 o1 Ho1; try (apply unbound_same; auto);
+        (split; simpl; [auto | apply unbind_rel; auto]).
   Qed.
 
   Fixpoint steps_rel (l l' : list step) : Prop :=
